@@ -87,6 +87,31 @@ HIST_WORKER = "xv.impl.c12x_hist_worker"
 OBSERVABLE_EDITS = ("meta_value", "path_value", "meta_member", "inside_meta", "tag")
 
 
+HIST_MAX_NODES = 16
+HIST_MAX_PATHS = 400
+
+
+def walk_cost(g):
+    """number of root-to-node paths of an acyclic spec graph: `submit` walks a configuration once per path that leads to it
+    (updatedependencies keeps no visited set), so heavily shared graphs cost exponential time — histories keep to graphs
+    that stay cheap to submit"""
+    memo = {}
+
+    def paths(i):
+        if i not in memo:
+            memo[i] = None     # acyclic by construction; a cycle would show up as None below
+            nd = g["nodes"][i]
+            kids = [r for _, v in nd["values"] for r in identlib._refs(v)] + list(nd["pre"]) + list(nd["init"])
+            memo[i] = 1 + sum(paths(k) or 0 for k in kids)
+        return memo[i]
+
+    return paths(0)
+
+
+def hist_ok(g):
+    return len(g["nodes"]) <= HIST_MAX_NODES and walk_cost(g) <= HIST_MAX_PATHS
+
+
 def hist_edit(rng, lib, g):
     """the next submission of the same task: only what the identifier ignores changes (or nothing at all)"""
     if rng.random() < 0.12:
@@ -94,7 +119,7 @@ def hist_edit(rng, lib, g):
     best = None
     for _ in range(8):
         e = edits.neutral_edit(rng, lib, g)
-        if e is None or e[1]["kind"] == "dependency":     # tokens belong to C08
+        if e is None or e[1]["kind"] == "dependency" or not hist_ok(e[0]):     # tokens belong to C08
             continue
         best = e
         if e[1]["kind"] in OBSERVABLE_EDITS:
@@ -137,7 +162,7 @@ def make_hist_cases(ctx, rng, nlibs, per, tag):
         while n < per and tries < per * 30:
             tries += 1
             g = seriallib.gen_graph(rng, lib, max_nodes=rng.choice([3, 5, 8]), cycles=False, task_links=False)
-            if seriallib.kind_of(lib, g["nodes"][0]["cls"]) != "task" or identlib.has_cycle(g):
+            if seriallib.kind_of(lib, g["nodes"][0]["cls"]) != "task" or identlib.has_cycle(g) or not hist_ok(g):
                 continue
             n += 1
             steps = gen_hist_steps(rng, lib, g)
